@@ -40,6 +40,9 @@ def gen(seed, tier):
                 probes.append(('descMds<decltype(md::mdspan(std::declval<double*>(), std::declval<const %s&>()))>()' % M, 'elem=double idx=%s pat=%s lay=%s acc=def' % (t, pat_str(p), ln), None))
                 probes.append(('descMds<decltype(md::mdspan(std::declval<int*>(), std::declval<const %s&>(), std::declval<const StAcc<int>&>()))>()' % M, 'elem=int idx=%s pat=%s lay=%s acc=st' % (t, pat_str(p), ln), None))
                 probes.append(('descMds<decltype(md::mdspan(std::declval<const int*>(), std::declval<const %s&>(), std::declval<const md::default_accessor<const int>&>()))>()' % M, 'elem=cint idx=%s pat=%s lay=%s acc=def' % (t, pat_str(p), ln), None))
+                # accessors whose reference type is not element_type& (proxy reference; value reference of a read-only accessor): element_type comes from the accessor
+                probes.append(('descMds<decltype(md::mdspan(std::declval<PxHandle>(), std::declval<const %s&>(), std::declval<const PxAcc<int>&>()))>()' % M, 'elem=int idx=%s pat=%s lay=%s acc=px' % (t, pat_str(p), ln), None))
+                probes.append(('descMds<decltype(md::mdspan(std::declval<const int*>(), std::declval<const %s&>(), std::declval<const ValAcc<int>&>()))>()' % M, 'elem=cint idx=%s pat=%s lay=%s acc=val' % (t, pat_str(p), ln), None))
                 # mapping deduction: layout_left/right::mapping(extents), layout_stride::mapping(extents, array)
                 if ln in ('left', 'right'):
                     probes.append(('descExt<typename decltype(%s::mapping(std::declval<const %s&>()))::extents_type>()' % (L, E), 'idx=%s pat=%s' % (t, pat_str(p)), None))
@@ -50,6 +53,11 @@ def gen(seed, tier):
                 ut = 'u' + t[1:]
                 probes.append(('memberTypes<%s>()' % V, 'size_type=%s mt=%s' % (ut, '1' * 18), 'c17 member %s' % t))
                 probes.append(('noexcepts<%s, %s>()' % (V, 'true' if ln in ('lpadD', 'rpad4') else 'false'), 'ne=' + '1' * 27, None))
+    # mdspan's own noexcept guarantees over a user layout whose mapping members are not noexcept
+    for t in tys:
+        for p in pats:
+            if not p: continue
+            probes.append(('noexceptsMds<md::mdspan<int, %s, NeLayout>>()' % cxx_ext(t, p), 'nem=' + '1' * 11, None))
     return probes
 
 def sources(probes, ntu=16):
@@ -83,7 +91,7 @@ def check(prop, tier, seed, replay=None):
             pub = dict(probe=[ex, want, m], config=cfg)
             if 'pat=- ' not in want: rep.nontrivial(ex)
             if xi != want:
-                kind = 'member-type-not-as-specified' if ex.startswith('memberTypes') else 'operation-the-specification-declares-noexcept-is-not' if ex.startswith('noexcepts') else 'deduction-guide-gives-another-type-than-specified'
+                kind = 'member-type-not-as-specified' if ex.startswith('memberTypes') else 'operation-the-specification-declares-noexcept-is-not' if ex.startswith('noexcept') else 'deduction-guide-gives-another-type-than-specified'
                 rep.violation(dict(kind=kind, impl=xi, specified=want, **pub)); continue
             if m and probes.index((ex, want, m)) in mout:
                 xm = mout[probes.index((ex, want, m))]
